@@ -305,7 +305,7 @@ func c10() []*Ob {
 				}
 				if pd := c.Fn("(*proxy/bulk.Ingestor).ProcessDocuments"); pd != nil {
 					store := Callee("(proxy/bulk.StorageClient).StoreDocuments", "(*proxy/bulk.SeqDBClient).StoreDocuments")
-					calls := CallsIn(pd, store)
+					calls := CallsIn(pd, c.P.AckCall(store))
 					if len(calls) == 1 && !InLoop(calls[0].(ssa.Instruction).Block()) && GuardedByNilErr(calls[0].(ssa.Instruction), Callee("(*proxy/bulk.Ingestor).processDocsToCompressor")) {
 						c.Site(calls[0].Pos(), "one StoreDocuments call, outside loops, after the whole body was processed without error")
 					} else {
@@ -541,7 +541,21 @@ func c10() []*Ob {
 					if IsNilConst(v) {
 						continue
 					}
-					if sl, ok := v.(*ssa.Slice); ok && sl.Max != nil && sl.High != nil && SameQuantity(sl.Max, sl.High) {
+					// what is returned, in place or through the returns of a private helper (limitDocCapacity)
+					limited, some := true, false
+					for _, o := range c.P.Origins(v, nil, 2, nil) {
+						if IsNilConst(o.Val) {
+							continue
+						}
+						some = true
+						if sl, ok := o.Val.(*ssa.Slice); !(ok && sl.Max != nil && sl.High != nil && SameQuantity(sl.Max, sl.High)) {
+							limited = false
+						}
+					}
+					if !some {
+						continue
+					}
+					if limited {
 						c.Site(ret.Pos(), "the returned document is capacity-limited")
 					} else {
 						c.Violation("alias:ReadDoc:cap-limited", ret.Pos(), "ReadDoc returns a view of the reader's buffer without limiting its capacity: a later append would overwrite the next line in the buffer")
